@@ -659,9 +659,10 @@ def check_gas_row(case, r, r0, names, G, kij, pr, info, ctx, step=0):
             ctx.event("two_phase_skipped")
         else:
             allowed = TOL_EOS + slack / ntot
+            allowed_sum = TOL_EXIST * P if fixedP else TOL_FUG * P + slack / ntot * P
             Pc = M.pressure(Vn)
             stat(ctx, "pr_P", rel(Pc, P) / allowed)
-            if rel(Pc, P) > allowed:
+            if rel(Pc, P) > allowed or (not fixedP and abs(ssum - P) > allowed_sum):
                 # Known finding (replays/C19/known/stale-total-pressure*.json): the total pressure a fixed-volume phase
                 # reports is the EOS pressure at a *relaxed* molar volume (model.cpp calc_gas_pressures: V_m <- (V_m_old +
                 # V/n) / 2 each iteration) and can trail the reported moles.  Recognised by its signature - moles, volume,
@@ -720,7 +721,11 @@ def check_gas_row(case, r, r0, names, G, kij, pr, info, ctx, step=0):
         if abs(peq[i] / ssum - x[i]) > TOL_FUG:
             raise Violation("fugacity", "%s: mole fraction %r, but its share of the equilibrium partial pressures 10^SI/phi is %r (SI=%r phi=%r)" % (
                 names[i], x[i], peq[i] / ssum, si[i], phi[i]))
-    if not stale:
+    if pr and not fixedP and reg not in OUTSIDE and not case.get("assert_inside_spinodal"):
+        # the sum is compared with the reported total pressure, which for a fixed-volume PR phase may be stale (see above);
+        # where the EOS itself is not asserted the signature of that finding cannot be established
+        ctx.event("two_phase_sum_skipped")
+    elif not stale:
         allowed = TOL_EXIST * P if fixedP else TOL_FUG * P + slack / ntot * P      # a fixed pressure is an input, not an iterate
         stat(ctx, "fug_sum_P" if fixedP else "fug_sum_V", abs(ssum - P) / allowed)
         if abs(ssum - P) > allowed:
